@@ -251,11 +251,24 @@ def flush_functions(ctx: Ctx, attr: str = "set_messages") -> list[FuncInfo]:
     return out
 
 
+class BatchedFlush(AnalysisError):
+    """The flush sends its entries together (gather over a comprehension) instead of one at a time."""
+
+    def __init__(self, msg: str, node: ast.AST) -> None:
+        super().__init__(msg)
+        self.node = node
+
+
 def analyse_flush(ctx: Ctx, f: FuncInfo, attr: str = "set_messages") -> Flush:
     g = CFG(f.node)
     loops = [n for n in ctx.own_nodes(f) if isinstance(n, (ast.For, ast.AsyncFor)) and is_send(n)]
     # the sending loop is the innermost one (an outer loop may range over several buffers)
     loops = [lp for lp in loops if not any(o is not lp and _inside(lp, o) for o in loops)]
+    if not loops:
+        # sends produced by a comprehension / generator handed to gather (or collected and awaited together)
+        for n in ctx.own_nodes(f):
+            if isinstance(n, (ast.GeneratorExp, ast.ListComp, ast.SetComp)) and any(isinstance(x, ast.Call) and isinstance(x.func, ast.Attribute) and x.func.attr == "send" for x in ast.walk(n.elt)):
+                raise BatchedFlush(f"flush shape not recognised in {f.fq}: 0 sending loop(s) - the entries are sent as one batch (`{norm(n)[:60]}`)", n)
     if len(loops) != 1:
         raise AnalysisError(f"flush shape not recognised in {f.fq}: {len(loops)} sending loop(s)")
     lp = loops[0]
